@@ -65,6 +65,9 @@ def write_xlsx(wb, path, sheet_order=None, cached=None):
             sb.put_value(s, col, row, c)
     for name, target in wb.names.items():
         sb.names.append((name, name_target(target)))
+    # names that are LOCAL to one sheet (localSheetId): (name, target, sheet)
+    for name, target, sheet in getattr(wb, 'local_names', ()):
+        sb.names.append((name, name_target(target), sb.order.index(sheet)))
     sb.write(path)
 
 
